@@ -82,7 +82,7 @@ SB_OP(bld)
             add(out, std::to_string((int)rc) + ":" + bufhex(&b));
         } else if (k == 'F') {
             sb_trajectory_t tr;
-            memset(&tr, 0, sizeof(tr));
+            memset(&tr, SBH_FILL, sizeof(tr));
             sb_error_t rc = sb_trajectory_init_from_builder(&tr, &b);
             std::string s = std::to_string((int)rc);
             if (rc == SB_SUCCESS) {
@@ -113,7 +113,7 @@ SB_OP(bld)
 SB_OP(rthconv)
 {
     sb_rth_plan_entry_t e;
-    memset(&e, 0, sizeof(e));
+    memset(&e, SBH_FILL, sizeof(e));
     e.action = (sb_rth_action_t)atoi(t[2].c_str());
     e.time_sec = tokf(t[3]);
     e.duration_sec = tokf(t[4]);
@@ -126,7 +126,7 @@ SB_OP(rthconv)
     e.pre_neck_duration_sec = tokf(t[11]);
     sb_vector3_with_yaw_t start = { tokf(t[12]), tokf(t[13]), tokf(t[14]), tokf(t[15]) };
     sb_trajectory_t tr;
-    memset(&tr, 0, sizeof(tr));
+    memset(&tr, SBH_FILL, sizeof(tr));
     sb_error_t rc = sb_trajectory_init_from_rth_plan_entry(&tr, &e, start);
     add(out, (long long)rc);
     if (rc == SB_SUCCESS) {
